@@ -157,19 +157,27 @@ Proof.
   injection H as <-. eauto.
 Qed.
 
+Lemma check_layers_inv : forall c o, check_layers c o = true ->
+  exists ls, o = Some ls /\ layers_closed c ls = true.
+Proof. intros c [ls|] H; [eauto|discriminate]. Qed.
+
 (* Every schedule - any interleaving of deliveries and user answers, any length - keeps the
-   invariant, and takes fewer than 400 effective steps. *)
-Lemma explore_sound : forall c, explore_ok c = true ->
-  forall sched, minv c (mrun c sched) = true /\ (effective c minit sched < 400)%nat.
+   invariant, and takes fewer than FUEL = 400 effective steps. *)
+Lemma explore_fuel_sound : forall fuel c, explore_fuel fuel c = true ->
+  forall sched, minv c (mrun c sched) = true /\ (effective c minit sched < fuel)%nat.
 Proof.
-  intros c H sched. unfold explore_ok in H.
-  destruct (layers c FUEL [forget minit]) as [ls|] eqn:E; [|discriminate].
+  intros fuel c H sched. unfold explore_fuel in H.
+  destruct (check_layers_inv _ _ H) as (ls & E & H').
   assert (Hc : closed_from c ls minit).
   { destruct (layers_head _ _ _ _ E ltac:(discriminate)) as (rest & ->).
     split; [|assumption]. vm_compute. reflexivity. }
   destruct (closed_run c sched ls minit Hc) as (A & B). split; [exact A|].
-  pose proof (layers_length _ _ _ _ E). unfold FUEL in *. lia.
+  exact (Nat.lt_le_trans _ _ _ B (layers_length _ _ _ _ E)).
 Qed.
+
+Lemma explore_sound : forall c, explore_ok c = true ->
+  forall sched, minv c (mrun c sched) = true /\ (effective c minit sched < FUEL)%nat.
+Proof. intros c H. exact (explore_fuel_sound FUEL c H). Qed.
 
 (* ---------------------------------------------------------------- the families *)
 Lemma family_explored : forallb explore_ok family = true.
@@ -225,7 +233,7 @@ Lemma schedules_ok : forall c, In c family -> forall sched,
   (must_fail c = true -> d_out (m_i s) <> 1 /\ d_out (m_r s) <> 1) /\
   (must_fail c = false -> d_out (m_i s) <> 2 /\ d_out (m_r s) <> 2) /\
   (d_out (m_i s) = 2 -> d_out (m_r s) = 2 -> d_reason (m_i s) = d_reason (m_r s)) /\
-  (effective c minit sched < 400)%nat.
+  (effective c minit sched < FUEL)%nat.
 Proof.
   intros c Hin sched s.
   pose proof family_explored as F. rewrite forallb_forall in F. specialize (F c Hin).
